@@ -226,10 +226,9 @@ def apply_ops(doc, ops):
             el.insert(ci, n)
         elif kind == "title-prefixed":
             # the SVG namespace under a prefix that is declared on the noise element itself: still a title / desc / metadata
-            frag = etree.fromstring('<wrap xmlns:s="http://www.w3.org/2000/svg"><s:title xmlns:s="http://www.w3.org/2000/svg">t</s:title></wrap>')
-            n = frag[0]
-            m = etree.fromstring('<s:metadata xmlns:s="http://www.w3.org/2000/svg"><s:desc>d</s:desc></s:metadata>')
-            el.insert(ci, m)
+            # (lxml would serialise it under the default namespace again: a placeholder is replaced in the text below)
+            n = etree.Element(tag("title"))
+            n.text = "PFXTITLE"
             el.insert(ci, n)
         elif kind in ("symbol-use", "symbol-style", "symbol-svg"):
             # id-less symbols are never instantiated: whatever they contain is ignorable, however broken
@@ -276,6 +275,7 @@ def apply_ops(doc, ops):
         elif kind == "pi-before-root":
             prefix = prefix + "<?xml-stylesheet href='x.css'?>\n<!-- c -->\n"
     out = etree.tostring(root).decode("utf-8")
+    out = out.replace("<title>PFXTITLE</title>", '<s:title xmlns:s="http://www.w3.org/2000/svg">t</s:title><s:metadata xmlns:s="http://www.w3.org/2000/svg"><s:desc>d</s:desc></s:metadata>')
     if any(o[0] == "foreignattr-root" for o in ops) and "xmlns:inkscape" not in out.split(">", 1)[0]:
         # declare the namespace on the root, as editors do
         cleaned = etree.fromstring(out.encode())
